@@ -360,12 +360,12 @@ EXEMPT_CALLTIME_WRITES = {
 }
 
 
-def r11_1_calltime_writes(ctx, rid='R11.1', modules=None):
+def r11_1_calltime_writes(ctx, rid='R11.1', modules=None, floor=5):
     """modules: restrict the report to constructs of these yatiml modules (C07 only speaks about the dump side)"""
     P = ctx.P
     keep = (lambda modname: True) if modules is None else (lambda modname: modname in modules)
     r = ctx.rule(rid, 'no call-time write to state that outlives the call (module globals, class attributes, fields of '
-                          'objects created at factory time, class-level mutable defaults)', floor=5)
+                          'objects created at factory time, class-level mutable defaults)', floor=floor)
     W = world(P)
     fis = call_time_functions(P)
     n_ok = 0
